@@ -79,7 +79,7 @@ def cases(tier, seed):
     variants = list(itertools.product(
         ("grid", "cases", "mix", "mix2"), (False, True, 3),
         ("none", "const", "farmer", "farmer-override", "const0", "farmer0",
-         "farmer-extra")))
+         "farmer-extra", "farmer-shared")))
     for n in range(1, nmax + 1):
         reqs = [("batchsize", s) for s in range(1, n + 2)]
         reqs += [("num_batches", k) for k in range(1, n + 3)]
@@ -94,7 +94,7 @@ def cases(tier, seed):
             yield {"n": n, "mode": mode, "req": req, "kind": kind,
                    "shuffle": shuffle, "const": const,
                    "resow": const.startswith("farmer")
-                   and (n + (req or 0)) % 3 == 0,
+                   and ((n + (req or 0)) % 3 == 0 or const == "farmer-shared"),
                    "again": (n + (req or 0)) % 4 == 1,
                    # (not with a count above N: the capped count is kept on
                    # the Crop object and an identical second request would
@@ -142,7 +142,10 @@ def check_case(case):
     # constants given for this run only override the farmer's stored ones
     override = {"k": 5} if const == "farmer-override" else None
     extra_args, defaults = [], None
-    if const == "farmer-extra":
+    if const in ("farmer-extra", "farmer-shared"):
+        # (farmer-shared: the caller keeps one dict of extra constants and
+        # hands that same object to every sow, also after the farmer's own
+        # constants have changed)
         # a constant of a new name, given for one sow only (the function has
         # a default for it)
         override = {"x": 5}
@@ -214,6 +217,8 @@ def check_case(case):
 
     def sow():
         sc = dict(sow_consts) if sow_consts else None
+        if const == "farmer-shared":
+            sc = sow_consts
         if kind == "mix2":
             # cases x sub-grid through sow_cases (sub-grid in parsed form)
             crop.sow_cases(fn_args, list(dcases), constants=sc, verbosity=0,
@@ -417,6 +422,53 @@ def check_case(case):
                     vio.append((tag("less-partition"),
                                 "after sowing %d settings over %d the batches "
                                 "do not partition the direct run" % (n2, n)))
+    # ---- a new Crop object that is told not to load what is on disk
+    # (autoload=False) sows the same work with one batch more over the
+    # existing crop: the numbers and the partition are the requested ones ----
+    if not farmer and B < n and core.pick([n, mode, req, kind, "noauto"], 3) \
+            == 0:
+        try:
+            old_ = xyz.Crop(name="c7", parent_dir=d)
+            if old_.is_prepared():
+                old_.delete_all()
+            keep = crop
+            crop = xyz.Crop(fn=f, name="c7", parent_dir=d, shuffle=(
+                shuffle if kind in ("cases", "mix2") else False), **kws)
+            skw_keep, skw = skw, {}
+            sow()
+            crop = xyz.Crop(fn=f, name="c7", parent_dir=d, autoload=False,
+                            shuffle=(shuffle if kind in ("cases", "mix2")
+                                     else False), num_batches=B + 1)
+            sow()
+            c7 = xyz.Crop(name="c7", parent_dir=d)
+            rep7 = (crop.num_batches, c7.num_batches, c7.num_sown_batches)
+            crop, skw = keep, skw_keep
+            if rep7 != (B + 1, B + 1, B + 1):
+                vio.append((tag("noautoload-count"),
+                            "Crop(autoload=False, num_batches=%d) sown over "
+                            "a crop of %d batches reports num_batches=%r "
+                            "(reloaded %r, sown files %r)" % (
+                                (B + 1, B) + rep7)))
+            else:
+                g7 = collections.Counter()
+                sz7 = []
+                for i in range(1, B + 2):
+                    with xfn.CallLog() as log:
+                        grow(i, crop=c7, fn=f, verbosity=0)
+                    g7.update(log.encs())
+                    sz7.append(len(log.calls))
+                if g7 != want or max(sz7) - min(sz7) > 1 or min(sz7) == 0:
+                    vio.append((tag("noautoload-partition"),
+                                "Crop(autoload=False, num_batches=%d) sown "
+                                "over an existing crop: batch sizes %r, "
+                                "missing %r extra %r" % (
+                                    B + 1, sz7,
+                                    list((want - g7).elements())[:2],
+                                    list((g7 - want).elements())[:2])))
+        except Exception as e:
+            vio.append((tag("noautoload-raised:" + type(e).__name__),
+                        "sowing through Crop(autoload=False) over an existing "
+                        "crop raised %r" % e))
     return {
         "nontrivial": n >= 2 and B >= 2,
         "outcome": "B=%d,sizes=%s" % (B, sorted(set(sizes))),
